@@ -944,7 +944,12 @@ impl Table {
 
 		if metaindexiter.is_valid() {
 			let k = metaindexiter.key();
-			assert_eq!(k.user_key(), filter_name.as_bytes());
+			if k.user_key() != filter_name.as_bytes() {
+				// The seek landed on the next entry: this table has no filter block
+				// under that name (written without a filter policy, or with another
+				// one). It is simply read without a filter.
+				return Ok(None);
+			}
 			let val = metaindexiter.value_encoded()?;
 
 			let fbl = BlockHandle::decode(val);
